@@ -3,7 +3,7 @@ PROP = {
     "coq_targets": ["Properties/C23.vo", "Extract/C23Extract.vo"],
     "properties_file": "Properties/C23.v",
     "theorems": ["C23_refines", "C23_attached_iff_established", "C23_updates_only_in_established",
-                 "C23_down_closes", "C23_no_crash"],
+                 "C23_down_closes", "C23_no_crash", "C23_policy_replacement_reattaches"],
     "allowed_axioms": [],
     "harness": "c23",
     "modelrun": {"name": "c23", "extracted": ["c23_model"], "driver": "ocaml/c23/c23_run.ml"},
